@@ -323,13 +323,17 @@ func c18Run(c *Ctx) {
 // c18EndToEnd: the same lookup through a running proxy: a request whose To host is h must leave
 // towards the next hop of the expected entry (tables of up to 2 entries, canonical map order).
 func c18EndToEnd(c *Ctx) {
-	c18EndToEndMode(c, false)
-	c18EndToEndMode(c, true)
+	c18EndToEndMode(c, "e2e")
+	c18EndToEndMode(c, "e2e-grouped")
+	c18EndToEndMode(c, "e2e-bad-entry-first")
 }
 
 // grouped: all patterns of the table except `default` are the destinations of ONE route entry (in
 // table order and in reverse order), `default` is an entry of its own
-func c18EndToEndMode(c *Ctx, grouped bool) {
+// e2e-bad-entry-first: one route entry per pattern, preceded by an entry the proxy cannot use (its
+// next hop does not parse): the remaining entries are consulted as if it were not there
+func c18EndToEndMode(c *Ctx, mode string) {
+	grouped, bad := mode == "e2e-grouped", mode == "e2e-bad-entry-first"
 	tables := c18Tables(2)
 	if grouped {
 		tables = c18Tables(3)
@@ -380,6 +384,9 @@ func c18EndToEndMode(c *Ctx, grouped bool) {
 				return "127.0.1.1:6000"
 			}
 		} else {
+			if bad && len(t) > 0 {
+				y.WriteString("  - dests: [\"v6.unusable.invalid\"]\n    protocol: udp\n    nexthop: \"[2001:db8::10]\"\n")
+			}
 			for i, p := range t {
 				fmt.Fprintf(&y, "  - dests: [\"%s\"]\n    protocol: udp\n    nexthop: 127.0.1.%d:%d\n", p, i+1, 6000+i)
 			}
@@ -421,11 +428,7 @@ func c18EndToEndMode(c *Ctx, grouped bool) {
 				ok, got = false, v
 			}
 			if !ok {
-				mode := "e2e"
-				if grouped {
-					mode = "e2e-grouped"
-				}
-				c.Violate(mode+"|"+strings.Join(t, ","), "e2e-precedence", fmt.Sprintf("table %v (%s) To host %q: request left towards %s", t, map[bool]string{true: "all patterns but default are destinations of one route entry", false: "one route entry per pattern"}[grouped], h, got), c18Case{t, h, mode})
+				c.Violate(mode+"|"+strings.Join(t, ","), "e2e-precedence", fmt.Sprintf("table %v (%s) To host %q: request left towards %s", t, map[bool]string{true: "all patterns but default are destinations of one route entry", false: "one route entry per pattern"}[grouped]+map[bool]string{true: ", preceded by an entry whose next hop does not parse", false: ""}[bad], h, got), c18Case{t, h, mode})
 			}
 		}
 		s.Close()
@@ -450,10 +453,10 @@ func init() {
 				cl, _ := c18SequenceVol(cs.Table, vol)
 				return cl
 			}
-			if cs.Mode == "e2e" || cs.Mode == "e2e-grouped" {
+			if cs.Mode == "e2e" || cs.Mode == "e2e-grouped" || cs.Mode == "e2e-bad-entry-first" {
 				// re-run the end-to-end pass and look for this table
 				cc := &Ctx{ID: "C18x", Tier: c.Tier, Res: newResult(), vmap: map[string]*Violation{}, Deadline: c.Deadline, NWorkers: 1}
-				c18EndToEndMode(cc, cs.Mode == "e2e-grouped")
+				c18EndToEndMode(cc, cs.Mode)
 				for _, v := range cc.Res.Violations {
 					if v.Sig == cs.Mode+"|"+strings.Join(cs.Table, ",") {
 						return v.Clause
